@@ -201,7 +201,7 @@ def parseSvTok (t : String) : Option Val :=
     | _ => none
   | _ => none
 
-def handle (toks : List String) : Option String :=
+def handle0 (toks : List String) : Option String :=
   match toks with
   | "c19.s" :: cfg :: tgt :: rest =>
     match parseCfg cfg, target tgt with
@@ -213,7 +213,19 @@ def handle (toks : List String) : Option String :=
       | none => some "bad-op"
     | _, _ => some "bad-op"
   | "c19.s" :: _ => some "bad-op"
-  | ["c19.lib", cfg, _fn] =>
+  | ["c19.lib", cfg, fn] =>
+    if fn.startsWith "time.Now" then
+      -- time.Now through any handle: mocker.String() is "time.Now", the wrappers return before logging (debug.go:29/:50)
+      match parseCfg cfg with
+      | some c =>
+        let env : Env := { sig := { params := [], velem := none, nOut := 1, isMethod := false }, kind := .patch, name := excludeFunc,
+                           render := renderDrv, orig := fun _ => [intVal 0], loggerCalls := false }
+        let ops : List Op := if fn.endsWith "ret" || fn.endsWith "as" then [.ret [intVal 1], .call [], .cancel]
+                             else [.apply { name := "m", kind := .sum, k := 0 }, .call [], .cancel]
+        let (_, s) := run env (initSt c) ops
+        some (if s.dead then "lib dead" else "lib r=m")
+      | none => some "bad-op"
+    else
     -- a one-string-parameter stand-in: Apply(callback); one call; Reset — for a function the logger does not call
     match parseCfg cfg with
     | some c =>
@@ -231,5 +243,11 @@ def handle (toks : List String) : Option String :=
       | none => some "sv-CRASH"
     | none => some "bad-op"
   | _ => none
+
+/-- `c19.h` = the same scenarios, replayed in a process whose log file cannot be opened (the model has no file) -/
+def handle (toks : List String) : Option String :=
+  match toks with
+  | "c19.h" :: rest => handle0 ("c19.s" :: rest)
+  | _ => handle0 toks
 
 end Drv.C19
